@@ -324,6 +324,12 @@ struct World {
     h_udp: SocketHandle,
     h_tcp: SocketHandle,
     h_icmp: SocketHandle,
+    /// ICMP socket bound to errors about UDP port UDP_PORT (inner transport header is parsed by the socket)
+    h_icmp_udp: SocketHandle,
+    /// DHCPv4 client (dhcp scenarios only: its presence switches on the DHCP fast path of process_ipv4)
+    h_dhcp: Option<SocketHandle>,
+    /// xid of the last DHCP message the client sent
+    last_xid: u32,
     med: Med,
     now: i64,
     /// every frame the stack emitted so far (for the emitted-frame check)
@@ -375,7 +381,10 @@ fn mk_world_mtu(med: Med, mode: &str, dev_mtu: usize) -> World {
     let mut ic = icmp::Socket::new(ib(), ib());
     ic.bind(icmp::Endpoint::Ident(ICMP_IDENT)).unwrap();
     let h_icmp = sockets.add(ic);
-    World { iface, dev, sockets, h_udp, h_tcp, h_icmp, med, now: 0, emitted: vec![] }
+    let mut ic2 = icmp::Socket::new(ib(), ib());
+    ic2.bind(icmp::Endpoint::Udp(UDP_PORT.into())).unwrap();
+    let h_icmp_udp = sockets.add(ic2);
+    World { iface, dev, sockets, h_udp, h_tcp, h_icmp, h_icmp_udp, h_dhcp: None, last_xid: 0, med, now: 0, emitted: vec![] }
 }
 
 fn eth_wrap(ethertype: EthernetProtocol, payload: &[u8]) -> Vec<u8> {
@@ -428,6 +437,9 @@ impl World {
         let mut v = vec![];
         for f in fr {
             self.emitted.push(f.clone());
+            if self.med == Med::Eth && f.len() > 14 + 28 + 8 && f[12] == 0x08 && f[13] == 0 && f[23] == 17 && f[34..38] == [0, 68, 0, 67] {
+                self.last_xid = u32::from_be_bytes(f[46..50].try_into().unwrap());
+            }
             v.push(f);
         }
         v
@@ -473,6 +485,20 @@ impl World {
             let ic = self.sockets.get_mut::<icmp::Socket>(self.h_icmp);
             while let Ok((d, a)) = ic.recv() {
                 s.push_str(&format!("icmp {} from {}\n", hex(d), a));
+            }
+        }
+        {
+            let ic = self.sockets.get_mut::<icmp::Socket>(self.h_icmp_udp);
+            while let Ok((d, a)) = ic.recv() {
+                s.push_str(&format!("icmp-udp {} from {}\n", hex(d), a));
+            }
+        }
+        if let Some(h) = self.h_dhcp {
+            let d = self.sockets.get_mut::<dhcpv4::Socket>(h);
+            match d.poll() {
+                None => s.push_str("dhcp no-event\n"),
+                Some(dhcpv4::Event::Deconfigured) => s.push_str("dhcp deconfigured\n"),
+                Some(dhcpv4::Event::Configured(c)) => s.push_str(&format!("dhcp configured {} router={:?} server={:?}\n", c.address, c.router, c.server)),
             }
         }
         {
@@ -645,8 +671,91 @@ fn indep_check_lowpan(p: &[u8], off: usize, split: usize) -> Verdict {
 /// Scenario = (name, medium, mode).  `setup` brings a fresh world to the state in which the test packet arrives.
 const SCENARIOS: &[&str] = &[
     "udp4", "udp6", "udp4-closed", "udp6-closed", "tcp4-syn", "tcp6-syn", "tcp4-closed", "tcp6-closed", "tcp4-data", "tcp6-data",
-    "icmp4-echo", "icmp6-echo",
+    "icmp4-echo", "icmp6-echo", "icmp4-unreach", "icmp6-unreach",
 ];
+
+/// Ethernet-only scenarios: DHCPv4 client in DISCOVERING / REQUESTING / RENEWING (unicast) state, and NDISC
+const ETH_SCENARIOS: &[&str] = &["dhcp4-offer", "dhcp4-ack", "dhcp4-nak", "dhcp4-renew-ack", "dhcp4-renew-nak", "icmp6-ns"];
+
+const DHCP_LEASE: u32 = 1000;
+
+/// a DHCP server message 10.0.0.2:67 -> (255.255.255.255 | 10.0.0.1):68 offering / acknowledging 10.0.0.1/24
+fn mk_dhcp(mt: DhcpMessageType, xid: u32, unicast: bool, lease: u32) -> Vec<u8> {
+    let nak = mt == DhcpMessageType::Nak;
+    let repr = DhcpRepr {
+        message_type: mt,
+        transaction_id: xid,
+        secs: 0,
+        client_hardware_address: EthernetAddress(IF_MAC),
+        client_ip: Ipv4Address::UNSPECIFIED,
+        your_ip: if nak { Ipv4Address::UNSPECIFIED } else { if_v4() },
+        server_ip: Ipv4Address::UNSPECIFIED,
+        router: if nak { None } else { Some(peer_v4()) },
+        subnet_mask: if nak { None } else { Some(Ipv4Address::new(255, 255, 255, 0)) },
+        relay_agent_ip: Ipv4Address::UNSPECIFIED,
+        broadcast: false,
+        requested_ip: None,
+        client_identifier: None,
+        server_identifier: Some(peer_v4()),
+        parameter_request_list: None,
+        dns_servers: None,
+        max_size: None,
+        lease_duration: if nak { None } else { Some(lease) },
+        renew_duration: None,
+        rebind_duration: None,
+        additional_options: &[],
+    };
+    let mut body = vec![0u8; repr.buffer_len()];
+    repr.emit(&mut DhcpPacket::new_unchecked(&mut body[..])).unwrap();
+    let dst = if unicast { if_v4() } else { Ipv4Address::BROADCAST };
+    let (s, d) = (IpAddress::Ipv4(peer_v4()), IpAddress::Ipv4(dst));
+    let u = UdpRepr { src_port: 67, dst_port: 68 };
+    let mut b = vec![0u8; 8 + body.len()];
+    u.emit(&mut UdpPacket::new_unchecked(&mut b[..]), &s, &d, body.len(), |p| p.copy_from_slice(&body), &ChecksumCapabilities::default());
+    let r = Ipv4Repr { src_addr: peer_v4(), dst_addr: dst, next_header: IpProtocol::Udp, payload_len: b.len(), hop_limit: 64 };
+    let mut p = vec![0u8; 20 + b.len()];
+    r.emit(&mut Ipv4Packet::new_unchecked(&mut p[..]), &ChecksumCapabilities::default());
+    p[20..].copy_from_slice(&b);
+    p
+}
+
+/// Ethernet world with a DHCPv4 client and no IPv4 address, driven to the state the scenario needs
+fn setup_dhcp(sc: &Scen) -> World {
+    let mut w = mk_world_mtu(Med::Eth, &sc.mode, 1514);
+    w.iface.update_ip_addrs(|a| a.retain(|c| !matches!(c.address(), IpAddress::Ipv4(_))));
+    w.h_dhcp = Some(w.sockets.add(dhcpv4::Socket::new()));
+    let h = w.h_dhcp.unwrap();
+    w.poll(); // DISCOVER
+    w.take_tx();
+    if sc.name == "dhcp4-offer" {
+        return w;
+    }
+    let x = w.last_xid;
+    w.inject(&mk_dhcp(DhcpMessageType::Offer, x, false, DHCP_LEASE));
+    w.poll(); // REQUEST
+    w.take_tx();
+    if sc.name == "dhcp4-ack" || sc.name == "dhcp4-nak" {
+        return w;
+    }
+    let x = w.last_xid;
+    w.inject(&mk_dhcp(DhcpMessageType::Ack, x, false, DHCP_LEASE));
+    w.poll();
+    // the application applies the configuration
+    let cfg = match w.sockets.get_mut::<dhcpv4::Socket>(h).poll() {
+        Some(dhcpv4::Event::Configured(c)) => Some(c.address),
+        _ => None,
+    };
+    if let Some(addr) = cfg {
+        w.iface.update_ip_addrs(|a| a.push(IpCidr::Ipv4(addr)).unwrap());
+    }
+    // T1 = lease / 2: the client renews by unicast (the server's MAC is learned afresh at that time: neighbor
+    // cache entries live 60 s)
+    w.now = (DHCP_LEASE as i64) * 500 + 10;
+    w.learn_peer();
+    w.poll();
+    w.take_tx();
+    w
+}
 
 struct Scen {
     name: String,
@@ -663,6 +772,9 @@ fn scen_v4(name: &str) -> bool {
 }
 
 fn setup(sc: &Scen) -> World {
+    if sc.name.starts_with("dhcp4") {
+        return setup_dhcp(sc);
+    }
     let mut w = mk_world(sc.med, &sc.mode);
     w.learn_peer();
     if sc.name.ends_with("tcp4-data") || sc.name.ends_with("tcp6-data") {
@@ -726,9 +838,46 @@ fn test_packet(sc: &Scen, payload: &[u8]) -> (Vec<u8>, usize, usize) {
         "tcp4-syn" | "tcp6-syn" => mk_tcp(v4, TCP_PORT, TcpControl::Syn, 1000, None, &[]),
         "tcp4-closed" | "tcp6-closed" => mk_tcp(v4, TCP_PORT + 1, TcpControl::Syn, 1000, None, &[]),
         "tcp4-data" | "tcp6-data" => mk_tcp(v4, TCP_PORT, TcpControl::Psh, 1001, Some(sc.iss.wrapping_add(1)), payload),
+        "dhcp4-offer" => mk_dhcp(DhcpMessageType::Offer, sc.iss, false, DHCP_LEASE),
+        "dhcp4-ack" => mk_dhcp(DhcpMessageType::Ack, sc.iss, false, DHCP_LEASE),
+        "dhcp4-nak" => mk_dhcp(DhcpMessageType::Nak, sc.iss, false, DHCP_LEASE),
+        "dhcp4-renew-ack" => mk_dhcp(DhcpMessageType::Ack, sc.iss, true, 2 * DHCP_LEASE),
+        "dhcp4-renew-nak" => mk_dhcp(DhcpMessageType::Nak, sc.iss, true, DHCP_LEASE),
+        "icmp4-unreach" | "icmp6-unreach" => mk_unreach(v4, payload),
+        "icmp6-ns" => {
+            let ns = Icmpv6Repr::Ndisc(NdiscRepr::NeighborSolicit { target_addr: if_v6(), lladdr: Some(RawHardwareAddress::from(EthernetAddress([2, 0, 0, 0, 0, 9]))) });
+            let src = Ipv6Address::new(0xfd00, 0, 0, 0, 0, 0, 0, 9);
+            let ip = Ipv6Repr { src_addr: src, dst_addr: if_v6(), next_header: IpProtocol::Icmpv6, payload_len: ns.buffer_len(), hop_limit: 255 };
+            let mut b = vec![0u8; 40 + ns.buffer_len()];
+            ip.emit(&mut Ipv6Packet::new_unchecked(&mut b[..40]));
+            ns.emit(&src, &if_v6(), &mut Icmpv6Packet::new_unchecked(&mut b[40..]), &ChecksumCapabilities::default());
+            b
+        }
         _ => mk_echo(v4, payload),
     };
     (p, 0, 0)
+}
+
+/// ICMP destination-unreachable from the peer quoting a UDP datagram sent from our UDP_PORT: delivered to the
+/// ICMP socket bound to Endpoint::Udp(UDP_PORT), which parses the quoted UDP header itself
+fn mk_unreach(v4: bool, payload: &[u8]) -> Vec<u8> {
+    let (peer, me) = addrs(v4);
+    let u = UdpRepr { src_port: UDP_PORT, dst_port: 9000 };
+    let mut inner = vec![0u8; 8 + payload.len()];
+    u.emit(&mut UdpPacket::new_unchecked(&mut inner[..]), &me, &peer, payload.len(), |p| p.copy_from_slice(payload), &ChecksumCapabilities::default());
+    if v4 {
+        let hdr = Ipv4Repr { src_addr: if_v4(), dst_addr: peer_v4(), next_header: IpProtocol::Udp, payload_len: inner.len(), hop_limit: 64 };
+        let r = Icmpv4Repr::DstUnreachable { reason: Icmpv4DstUnreachable::PortUnreachable, header: hdr, data: &inner };
+        let mut b = vec![0u8; r.buffer_len()];
+        r.emit(&mut Icmpv4Packet::new_unchecked(&mut b[..]), &ChecksumCapabilities::default());
+        ip_wrap(true, IpProtocol::Icmp, &b)
+    } else {
+        let hdr = Ipv6Repr { src_addr: if_v6(), dst_addr: peer_v6(), next_header: IpProtocol::Udp, payload_len: inner.len(), hop_limit: 64 };
+        let r = Icmpv6Repr::DstUnreachable { reason: Icmpv6DstUnreachable::PortUnreachable, header: hdr, data: &inner };
+        let mut b = vec![0u8; r.buffer_len()];
+        r.emit(&peer_v6(), &if_v6(), &mut Icmpv6Packet::new_unchecked(&mut b[..]), &ChecksumCapabilities::default());
+        ip_wrap(false, IpProtocol::Icmpv6, &b)
+    }
 }
 
 fn run_world(sc: &Scen, pkt: Option<&[u8]>, emitted: &mut Vec<Vec<u8>>) -> std::result::Result<String, ()> {
@@ -942,6 +1091,9 @@ fn all_combos() -> Vec<(String, Med, String)> {
         for s in ["udp6", "udp6-frag", "udp6-elided"] {
             v.push((s.to_string(), Med::Lowpan, mode.to_string()));
         }
+        for s in ETH_SCENARIOS {
+            v.push((s.to_string(), Med::Eth, mode.to_string()));
+        }
     }
     v
 }
@@ -994,6 +1146,9 @@ fn oracle_iface(seed: u64, n: usize, tier: &str, out: &mut dyn Write) {
         let mut sc = Scen { name, med, mode, iss: 0, split: 0 };
         if sc.name.contains("data") {
             sc.iss = probe_iss(&sc.name, sc.med, &sc.mode);
+        }
+        if sc.name.starts_with("dhcp4") {
+            sc.iss = setup(&sc).last_xid;
         }
         let plen = match rng.below(4) { 0 => 1, 1 => rng.range(2, 9) as usize, _ => rng.range(8, 40) as usize };
         let payload = rng.bytes(plen);
@@ -1297,6 +1452,9 @@ fn replay_cases(cases: &[Case], out: &mut dyn Write) {
                 let mut sc = Scen { name: c.get("scen").unwrap_or("udp4").to_string(), med, mode: c.get("caps").unwrap_or("both").to_string(), iss: 0, split: c.get_i("split", 0) as usize };
                 if sc.name.contains("data") {
                     sc.iss = probe_iss(&sc.name, sc.med, &sc.mode);
+                }
+                if sc.name.starts_with("dhcp4") {
+                    sc.iss = setup(&sc).last_xid;
                 }
                 let mut st = IfaceStats { injections: 0, must_drop: 0, still_valid: 0, dont_care: 0, rx_off_runs: 0, emitted_checked: 0, by: BTreeMap::new() };
                 let mut emitted = vec![];
